@@ -116,7 +116,7 @@ Fixpoint skip_groups (fuel : nat) (stack : list N) (b : list N) : pres (list N) 
       end
   end.
 Definition skip_group (num : N) (b : list N) : option (list N) :=
-  match skip_groups (length b) [num] b with POk r => Some r | _ => None end.
+  match skip_groups (S (length b)) [num] b with POk r => Some r | _ => None end.
 
 Definition max_field_number : N := 536870911.
 
@@ -449,8 +449,69 @@ Definition enc_meshsil (m : wmeshsil) : list N := enc_fields (fields_meshsil m).
 Definition dec_meshsil (b : list N) : option wmeshsil :=
   match parse_msg b with Some fs => foldM upd_meshsil fs (mkMS None None) | None => None end.
 
-(* ---------- protodelim framing and whole files ---------- *)
 Definition max_size : N := 4194304. (* protodelim default MaxSize (4 MiB) *)
+
+(* ---------- well-formed records: what the theorems assume about a store content ----------
+   ranges of the Go types (int64 seconds, int32 nanos, uint32 idx, uint64 hashes, int32 enum), valid UTF-8 in
+   proto3 string fields (protobuf-go refuses to MARSHAL anything else), unique map keys, and [fits]: every
+   length-delimited piece is shorter than 2^64 bytes and every varint below 2^64 (true of anything that exists) *)
+Definition two64N : N := 18446744073709551616.
+Definition small (b : list N) : bool := (N.of_nat (length b) <? two64N)%N.
+Definition wf_field (f : N * wval) : bool :=
+  (1 <=? fst f)%N && (fst f <=? max_field_number)%N &&
+  match snd f with
+  | WVar v => (v <? two64N)%N
+  | WI64 b => Nat.eqb (length b) 8
+  | WI32 b => Nat.eqb (length b) 4
+  | WLen b => small b
+  | WGroup => false
+  end.
+Definition fits (fs : list (N * wval)) : bool := forallb wf_field fs.
+
+Definition in64 (z : Z) : bool := (- two63 <=? z) && (z <? two63).
+Definition in32 (z : Z) : bool := (- two31 <=? z) && (z <? two31).
+Definition wf_ts (t : wts) : bool := in64 (t_sec t) && in32 (t_nanos t) && fits (fields_ts t).
+Definition wf_ots (o : option wts) : bool := match o with Some t => wf_ts t | None => true end.
+Definition wf_recv (r : wrecv) : bool :=
+  str_ok (r_group r) && str_ok (r_integ r) && (r_idx r <? 4294967296)%N && fits (fields_recv r).
+Definition wf_rdv (v : option rdv) : bool :=
+  match v with
+  | None => true
+  | Some (RStr s) => str_ok s
+  | Some (RInt z) => in64 z
+  | Some (RDbl b) => (0 <=? b) && (b <? two64)
+  end && fits (fields_rdv v).
+Definition wf_dentry (kv : string * option rdv) : bool :=
+  str_ok (fst kv) && wf_rdv (snd kv) && fits (fields_dentry kv).
+Fixpoint keys_unique {V} (l : list (string * V)) : bool :=
+  match l with
+  | [] => true
+  | (k, _) :: r => negb (existsb (fun kv => String.eqb (fst kv) k) r) && keys_unique r
+  end.
+Definition wf_entry (e : wentry) : bool :=
+  match we_recv e with Some r => wf_recv r | None => true end && wf_ots (we_ts e) &&
+  forallb (fun n => (n <? two64N)%N) (we_firing e) && forallb (fun n => (n <? two64N)%N) (we_resalerts e) &&
+  forallb wf_dentry (we_data e) && keys_unique (we_data e) && fits (fields_entry e).
+Definition wf_mesh (m : wmesh) : bool :=
+  match wm_entry m with Some e => wf_entry e | None => true end && wf_ots (wm_exp m) && fits (fields_mesh m) &&
+  (N.of_nat (length (enc_fields (fields_mesh m))) <=? max_size)%N.
+
+Definition wf_matcher (m : wmatcher) : bool :=
+  in32 (wm_type m) && str_ok (wm_name m) && str_ok (wm_pattern m) && fits (fields_matcher m).
+Definition wf_mset (ms : list wmatcher) : bool := forallb wf_matcher ms && fits (fields_mset ms).
+Definition wf_comment (c : wcomment) : bool :=
+  str_ok (wc_author c) && str_ok (wc_comment c) && wf_ots (wc_ts c) && fits (fields_comment c).
+Definition wf_aentry (kv : string * string) : bool := str_ok (fst kv) && str_ok (snd kv) && fits (fields_aentry kv).
+Definition wf_silence (s : wsilence) : bool :=
+  str_ok (ws_id s) && forallb wf_matcher (ws_matchers s) && wf_ots (ws_starts s) && wf_ots (ws_ends s) &&
+  wf_ots (ws_updated s) && forallb wf_comment (ws_comments s) && str_ok (ws_created_by s) && str_ok (ws_comment s) &&
+  forallb wf_aentry (ws_annotations s) && keys_unique (ws_annotations s) &&
+  forallb wf_mset (ws_msets s) && forallb wf_mset (ws_rmsets s) && fits (fields_silence s).
+Definition wf_meshsil (m : wmeshsil) : bool :=
+  match ms_sil m with Some s => wf_silence s | None => true end && wf_ots (ms_exp m) && fits (fields_meshsil m) &&
+  (N.of_nat (length (enc_fields (fields_meshsil m))) <=? max_size)%N.
+
+(* ---------- protodelim framing and whole files ---------- *)
 Definition frame (body : list N) : list N := varint_enc (N.of_nat (length body)) ++ body.
 Definition read_frame (b : list N) : option (list N * list N) :=
   match varint_dec b with
